@@ -458,6 +458,13 @@ func (rtcmHandler *Handler) GetMessage(bitStream []byte) (*Message, error) {
 
 		const timestampPosition = utils.LeaderLengthBits + header.LenMessageType + header.LenStationID
 
+		// The frame is valid but the embedded message may still be too short to
+		// contain a timestamp (for example a truncated or hostile MSM).
+		if messageLength*8 < header.LenMessageType+header.LenStationID+header.LenTimeStamp {
+			message.ErrorMessage = "message is too short to contain a timestamp"
+			return message, errors.New(message.ErrorMessage)
+		}
+
 		message.Timestamp =
 			uint(utils.GetBitsAsUint64(bitStream, timestampPosition, header.LenTimeStamp))
 
